@@ -190,3 +190,134 @@ def make_posts_reclaim(ex):
                 e["op"] in ("rename", "unlink") and e["outcome"] == "ok" for e in st_ev)
         return out
     return posts
+
+
+# ---- C18: blob identity depends only on content ------------------------------------------------------------
+
+def ob_tx_write(ex, nchunks=2):
+    """Transaction::write called nchunks times with chunks of arbitrary (symbolic) lengths: the byte
+    stream given to the hasher == the byte stream given to the staging writer == the chunks in
+    order, and size == sum of the lengths"""
+    from exec import State, VRef, VStruct, VVec, VUnit
+    from world import SystemWorld, find_fn
+    import entry as E
+    t0 = time.time()
+    q0 = ex.queries
+    st = State()
+    sw = SystemWorld(ex, st, U=1, HU=1, N=2)
+    tx = E.mk_tx(ex, sw, st, pending=False)
+    tx.fields[3] = VOpaque("hasher", ())
+    tx.fields[4] = VInt(0, "u64")
+    txref = VRef(st.alloc(tx))
+    fn = find_fn(ex, "::write", "transaction::")
+    lens = []
+    states = [st]
+    for i in range(nchunks):
+        nxt = []
+        for s in states:
+            ln = ex.fresh(f"chunk{i}_len")
+            s.pc += [ln >= 0, ln <= (1 << 40)]
+            s.meta.setdefault("chunk_lens", []).append(ln)
+            data = VOpaque("bytes", ("slice", ("chunk", i), z3.IntVal(0), ln))
+            ex.start(s, fn, [txref, VRef(s.alloc(data))])
+            for f in ex.run(s):
+                if f.status == "returned" and isinstance(f.retval, VEnum) and f.retval.concrete() == 0:
+                    f.status = "running"
+                    nxt.append(f)
+                elif f.status in ("unsupported", "panic"):
+                    nxt.append(f)
+                elif f.status == "cut":
+                    pass  # beyond the unrolling bound: stated as outside the claim
+        states = nxt
+    name = f"Transaction::write x{nchunks}: hasher stream == staging stream == content; size == total length"
+    for f in states:
+        if f.status == "unsupported":
+            return Obligation(name, ["C18"], "inconclusive", time.time() - t0, f.note, None, ex.queries - q0, len(states))
+
+    def norm(chunks):
+        out = []
+        for d in chunks:
+            if isinstance(d, tuple) and len(d) == 2 and d[0] in ("bytes", "chunk"):
+                d = d[1]
+            while isinstance(d, tuple) and len(d) == 2 and d[0] in ("bytes", "chunk"):
+                d = d[1]
+            out.append(d)
+        return out
+
+    n = 0
+    for f in states:
+        if f.status == "panic":
+            r, m = ex.model_of(f.pc)
+            return Obligation(name, ["C18"], "violated", time.time() - t0, "write panics: " + f.note,
+                              {"chunk_lens": [m.eval(x, model_completion=True).as_long() for x in f.meta.get("chunk_lens", [])]} if m else None,
+                              ex.queries - q0, len(states))
+        t = f.load(txref)
+        hashed = norm(list(t.fields[3].data))
+        ios = [e for e in f.trace if e["kind"] == "io" and e["op"] == "write" and e["path"][0] == "staging"]
+        written = []
+        for e in ios:
+            written += norm(e["data"])
+        written += norm([x.data for x in t.fields[2].fields[1].elems])
+        lens = f.meta.get("chunk_lens", [])
+
+        def total(seq):
+            s_ = z3.IntVal(0)
+            for d in seq:
+                if isinstance(d, tuple) and d and d[0] == "slice":
+                    s_ = s_ + d[3]
+                else:
+                    return None
+            return s_
+        th, tw = total(hashed), total(written)
+        want = z3.Sum(lens) if lens else z3.IntVal(0)
+        posts = {}
+        if th is None or tw is None:
+            posts["streams are made of slices of the written chunks"] = False
+        else:
+            posts["C18 hasher saw exactly as many bytes as were written"] = th == want
+            posts["C18 staging writer got exactly as many bytes as were written"] = tw == want
+            # contiguity per chunk: slices of chunk i appear in order and cover [0, len_i)
+            for seqname, seq in (("hasher", hashed), ("writer", written)):
+                pos = {}
+                okc = []
+                for d in seq:
+                    b = str(d[1])
+                    okc.append(d[2] == pos.get(b, z3.IntVal(0)))
+                    pos[b] = pos.get(b, z3.IntVal(0)) + d[3]
+                posts[f"C18 {seqname} stream is the chunks in order without gaps"] = z3.And(okc) if okc else z3.BoolVal(True)
+        posts["C18 recorded size == total length"] = t.fields[4].t == want
+        for lab, post in posts.items():
+            n += 1
+            if isinstance(post, bool):
+                if not post:
+                    return Obligation(name, ["C18"], "violated", time.time() - t0, lab, None, ex.queries - q0, len(states))
+                continue
+            r, m = ex.model_of(f.pc, z3.Not(post))
+            if r == z3.sat:
+                cex = {"chunk_lens": [m.eval(x, model_completion=True).as_long() for x in lens]}
+                return Obligation(name, ["C18"], "violated", time.time() - t0, "post-condition fails: " + lab, cex, ex.queries - q0, len(states))
+    if not states:
+        return Obligation(name, ["C18"], "inconclusive", time.time() - t0, "no completed path", None, ex.queries - q0, 0)
+    return Obligation(name, ["C18"], "discharged", time.time() - t0, f"{len(states)} paths, {n} post-condition queries", None,
+                      ex.queries - q0, len(states))
+
+
+def make_posts_commit_identity(ex):
+    def posts(sw, f):
+        """C18: the blob is placed at the path of the hash of exactly what was hashed (= the content);
+        the index records that hash and the transaction's size"""
+        out = {}
+        rv = f.retval
+        h = sw.op_hash
+        ren = [e for e in f.trace if e["kind"] == "io" and e["op"] == "rename" and e.get("dst", ("",))[0] == "cas" and e["outcome"] == "ok"]
+        for e in ren:
+            out["C18 blob renamed to the path of the content's hash"] = e["dst"][1] == h
+        out["C18 finalize() covers exactly the content"] = (f.meta.get("finalized-over") == (("content",),)) or not ren
+        if isinstance(rv, VEnum) and rv.concrete() == 0:
+            w = sw.iw
+            post = w.snapshot_of(f, sw.state_ref)
+            k = sw.op_key
+            out["C18 index maps the key to the content's hash and length"] = z3.And(
+                [z3.Implies(w.keys[i] == k, z3.And(post["pk"][i], post["hk"][i] == h, post["sk"][i] == sw.op_size)) for i in range(w.U)])
+        return out
+    return posts
